@@ -303,8 +303,13 @@ def explore_update(ctx, root, upd, rng, terms, descr, faults=None):
     for flt in fl:
         clean_dir(root, upd, old)
         upd.prepare()
-        with Rec(root, flt) as rec:
-            upd.call()
+        try:
+            with Rec(root, flt) as rec:
+                upd.call()
+        except Exception as error:
+            # the updater's own error handling let something else escape after the injected fault (e.g. it went on
+            # to read back what it had just half-written): not a verdict by itself, the files it left are judged below
+            ctx.count('updater_raised_%s_after_a_fault' % type(error).__name__)
         if not rec.fault_hit:
             ctx.count('fault_beyond_trace')
             continue
